@@ -4,6 +4,7 @@
 -/
 import MicroHttp.Show
 import MicroHttp.Server
+import MicroHttp.Spec.RespReader
 open MicroHttp
 
 def hexVal (c : Char) : Option Nat :=
@@ -222,6 +223,16 @@ def stepLine (st : DState) (line : String) : DState × String :=
         | .ok a => "ok " ++ showPhase a.phase ++ " acc=" ++ toString a.acc.length
         | .error e => "err " ++ e.show))
     | _, _ => (st, "bad-op")
+  | ["spec", "respread", h] =>
+    match unhex h with
+    | some bs =>
+      let (vs, rest) := readAll (bs.length + 1) bs
+      let showV (v : RespView) : String :=
+        let ver := match Version.tryFrom v.version with | some x => x.show | none => "?" ++ hx v.version
+        let code := String.ofList (v.code.map fun b => Char.ofNat b.toNat)
+        s!"(v={ver} code={code} hdrs={",".intercalate (v.headers.map hx)} body={hx v.body})"
+      (st, "[" ++ "".intercalate (vs.map showV) ++ s!"] rest={rest.length}")
+    | none => (st, "bad-op")
   | "srv" :: rest =>
     let (s', out) := srvStep st.srv rest
     ({ st with srv := s' }, out)
